@@ -45,7 +45,7 @@ def make_family(shape, kinds=inject.FAULT_KINDS, budget=1):
             return finish(ctx, 'no-fault:%d' % r0.status,
                           info=dict(statements=hook.statements))
         what = ','.join('%s@%d:%s' % (k, i, t) for i, k, t in hook.injected)
-        kind = hook.injected[0][1]
+        kind = '+'.join('%s@%s' % (k, t) for i, k, t in hook.injected)
         if escaped is not None:
             runner.violation(ctx, 'no-escaped-exception',
                              'fault %s: %s escaped the application' % (
